@@ -1,5 +1,6 @@
 use super::comments::{
     append_trailing_statement_suffix, has_inline_non_trivia_after, has_inline_non_trivia_before,
+    statement_keeps_trailing_semicolon,
 };
 use super::*;
 
@@ -911,14 +912,19 @@ pub(crate) fn render_statement_align_split(
     syntax_plan: &SyntaxNodeLayoutPlan,
     plan: &FormatPlan,
 ) -> Option<DocPair> {
+    let node = find_node_by_id(root, syntax_plan.syntax_id)?;
+    // The split only carries the names, `=` and the values: a statement with a `;` that has to
+    // stay goes through its full renderer instead.
+    if statement_keeps_trailing_semicolon(ctx, &node) {
+        return None;
+    }
+
     match syntax_plan.kind {
         LuaSyntaxKind::LocalStat => {
-            let node = find_node_by_id(root, syntax_plan.syntax_id)?;
             let stat = LuaLocalStat::cast(node)?;
             render_local_stat_align_split(ctx, plan, syntax_plan.syntax_id, &stat)
         }
         LuaSyntaxKind::AssignStat => {
-            let node = find_node_by_id(root, syntax_plan.syntax_id)?;
             let stat = LuaAssignStat::cast(node)?;
             render_assign_stat_align_split(ctx, plan, syntax_plan.syntax_id, &stat)
         }
